@@ -20,6 +20,67 @@ class Unsupported(Exception):
     """Construct outside the domain -> rule instance is BROKEN, not violated."""
 
 
+class NeedSplit(Exception):
+    """An ordering comparison depends on a non-constant bit: the caller fixes that
+    bit both ways (run_split) and interprets the function once per case."""
+    def __init__(self, bit):
+        Exception.__init__(self, 'case split')
+        self.bit = bit
+
+
+def subst_bit(b, assume):
+    """apply {atom: affine bit} to an affine bit"""
+    if b is TOP or not assume or not b[1]:
+        return b
+    c, atoms = b
+    if not any(a in assume for a in atoms):
+        return b
+    out = set()
+    for a in atoms:
+        if a in assume:
+            fc, fa = assume[a]
+            c ^= fc
+            out ^= set(fa)
+        else:
+            out ^= {a}
+    return (c, frozenset(out))
+
+
+def subst_bits(bits, assume):
+    return [subst_bit(b, assume) for b in bits] if assume else list(bits)
+
+
+def run_split(ip, fname, args, max_leaves=2048):
+    """Exact case analysis: returns [(assume, ret, stores, loads)] where the assumptions
+    partition the input space; each assumption is a triangular substitution
+    {atom: affine form of other atoms} under which every ordering comparison met on the
+    way had a definite (constant or affine) outcome."""
+    work = [{}]
+    leaves = []
+    runs = 0
+    while work:
+        asm = work.pop()
+        ip.assume = asm
+        runs += 1
+        try:
+            r = ip.run(fname, args)
+        except NeedSplit as sp:
+            c, atoms = sp.bit
+            a = min(atoms)
+            for v in (0, 1):
+                form = (c ^ v, frozenset(atoms - {a}))
+                new = {k: subst_bit(f, {a: form}) for k, f in asm.items()}
+                new[a] = form
+                work.append(new)
+            if len(work) + len(leaves) > max_leaves or runs > 4 * max_leaves:
+                raise Unsupported('case-split budget exceeded')
+            continue
+        finally:
+            ip.assume = {}
+        leaves.append((asm,) + tuple(r))
+    return leaves
+
+
 def bxor(a, b):
     if a is TOP or b is TOP:
         return TOP
@@ -206,6 +267,7 @@ class Interp:
         self.linear_tables = linear_tables or {}   # name -> (list of ints, elemwidth)
         self.max_depth = max_depth
         self.visited_functions = set()
+        self.assume = {}
 
     # -- types ----------------------------------------------------------
     def tinfo(self, node):
@@ -281,6 +343,8 @@ class Interp:
         if len(params) != len(args):
             raise Unsupported('arity %s' % fname)
         for p, a in zip(params, args):
+            if depth == 0 and self.assume and isinstance(a, BV):
+                a = BV(subst_bits(a.bits, self.assume), a.signed, a.isfloat)
             fr.declare(p, a)
         body = self.u.body(fname)
         fr.exec_block(body)
@@ -425,7 +489,8 @@ class Frame:
                     bits += self.stores[key]
                 else:
                     self.loads.add(key)
-                    bits += [(0, frozenset(['%s[%d].%d' % (ident[1], off + i, b)])) for b in range(8)]
+                    bits += subst_bits([(0, frozenset(['%s[%d].%d' % (ident[1], off + i, b)])) for b in range(8)],
+                                       self.ip.assume)
         return BV(self.from_mem(bits), signed, isfloat)
 
     def store(self, lv, val):
@@ -639,6 +704,25 @@ class Frame:
             if op in ('<', '>', '<=', '>='):
                 r = {'<': ca < cb, '>': ca > cb, '<=': ca <= cb, '>=': ca >= cb}[op]
                 return BV.const(int(r), 32, True)
+        if op in ('<', '>', '<=', '>=') and a.width == b.width and not a.isfloat and not b.isfloat:
+            # lexicographic from the most significant bit; the first position where the operands
+            # differ decides.  A non-constant difference bit is fixed by the caller (NeedSplit).
+            xs, ys = list(a.bits), list(b.bits)
+            if a.signed and b.signed:
+                xs[-1], ys[-1] = bnot(xs[-1]), bnot(ys[-1])
+            elif a.signed != b.signed:
+                raise Unsupported('mixed-sign comparison')
+            for x, y in zip(reversed(xs), reversed(ys)):
+                d = bxor(x, y)
+                if d is TOP:
+                    raise Unsupported('comparison of unknown bits')
+                if not is_const(d):
+                    raise NeedSplit(d)
+                if d[0]:
+                    gt = x                       # operands differ here: a > b iff a's bit is set
+                    r = gt if op in ('>', '>=') else bnot(gt)
+                    return BV([r] + [ZERO] * 31, True)
+            return BV.const(int(op in ('<=', '>=')), 32, True)
         raise Unsupported('operator %s on non-constants' % op)
 
     def call(self, n):
